@@ -22,6 +22,8 @@ pub enum ROp {
     Prog { draws: u32, zero_every: u32, brk: Option<u32> },
     /// host activity that must not touch the generator
     Noise(u32),
+    /// `FOR Q = 1 TO n : PRINT RND(1) : NEXT Q`: a long walk through the generator's states
+    Walk(u32),
 }
 
 #[derive(Clone, Debug, Serialize, Deserialize)]
@@ -60,6 +62,10 @@ fn in_unit(text: &str) -> bool {
 }
 
 fn web_line(w: &mut WebSess, line: &str, ctx: &mut Ctx) -> Result<(Vec<String>, Option<String>), Violation> {
+    web_line_n(w, line, ctx, 5000)
+}
+
+fn web_line_n(w: &mut WebSess, line: &str, ctx: &mut Ctx, max_ticks: u32) -> Result<(Vec<String>, Option<String>), Violation> {
     let trap = |what: &str, p: String| Violation::new("C18/web-trap", format!("panic@{p}"), format!("{what} trapped: {p}"));
     w.start_evaluating(line).map_err(|p| trap(line, p))?;
     ctx.calls(1);
@@ -77,7 +83,7 @@ fn web_line(w: &mut WebSess, line: &str, ctx: &mut Ctx) -> Result<(Vec<String>, 
                 err = w.take_latest_error().map_err(|p| trap("take_latest_error", p))?;
                 break;
             }
-            WSt::Running if n < 5000 => {
+            WSt::Running if n < max_ticks => {
                 w.continue_evaluating().map_err(|p| trap("continue_evaluating", p))?;
                 ctx.calls(1);
                 n += 1;
@@ -234,6 +240,53 @@ fn check(c: &Case, ctx: &mut Ctx) -> Option<Violation> {
                 }
                 ctx.count("reach.program_draws");
             }
+            ROp::Walk(n) => {
+                let prog = format!("10 FOR Q = 1 TO {} : PRINT RND(1) : NEXT Q", n);
+                s.apply(&Op::Line(prog.clone()))?;
+                if let Err(p) = w.start_evaluating(&prog) {
+                    return v("web-trap", format!("panic@{p}"), format!("web line trapped: {p}"));
+                }
+                let mut call = s.apply(&Op::Line("RUN".into()))?;
+                let mut k = 0u32;
+                loop {
+                    if let Some(p) = call.panicked() {
+                        return v("panic", format!("panic@{p}"), format!("op {i} walk unwound: {p}"));
+                    }
+                    if let Some(e) = call.err() {
+                        return v("rnd-failed", e.kind.clone(), format!("op {i} walk failed: {}", e.text));
+                    }
+                    for r in &call.recs {
+                        if let Rec::Print(t) = r {
+                            let want = format!("{}\n", m.advance());
+                            k += 1;
+                            ctx.state(m.x);
+                            if *t != want || !in_unit(t) {
+                                return v("sequence-differs", "walk".into(), format!("op {i}: draw {k} of the walk printed {:?}, the LCG gives {:?} (state {})", t, want, m.x));
+                            }
+                        }
+                    }
+                    if s.state() != St::Running {
+                        break;
+                    }
+                    call = s.apply(&Op::Tick)?;
+                }
+                ctx.calls(3 * *n as u64);
+                // the same walk on the web adapter
+                let (wgot, werr) = match web_line_n(&mut w, "RUN", ctx, 4 * *n + 16) {
+                    Ok(x) => x,
+                    Err(e) => return Some(e),
+                };
+                if wgot.len() as u32 != *n || werr.is_some() || wgot.last().map(|t| t.as_str()) != Some(format!("{}\n", m.value()).as_str()) {
+                    return v("front-ends-differ", "walk".into(), format!("op {i}: web walk printed {} numbers, last {:?} (error {:?}); the LCG ends at {:?}", wgot.len(), wgot.last(), werr, m.value()));
+                }
+                let _ = w.start_evaluating("10");
+                if k != *n {
+                    return v("sequence-differs", "walk length".into(), format!("op {i}: the walk printed {k} numbers, expected {n}"));
+                }
+                s.apply(&Op::Line("10".into()))?;
+                distinct_states += k as u64;
+                ctx.count("reach.long_walk");
+            }
             ROp::Noise(kind) => {
                 let before = s.probe(false).rng_state;
                 let lines: Vec<&str> = match kind % 6 {
@@ -340,6 +393,14 @@ impl Prop for C18 {
             };
             ops.push(op);
         }
+        if rng.chance(1, 8) {
+            let n = match ctx.tier {
+                Tier::Quick => 200 + rng.below(3000) as u32,
+                Tier::Thorough => 2000 + rng.below(60000) as u32,
+            };
+            let at = rng.usize(ops.len() + 1);
+            ops.insert(at, ROp::Walk(n));
+        }
         Case { ops }
     }
 
@@ -350,6 +411,13 @@ impl Prop for C18 {
     fn shrink(c: &Case) -> Vec<Case> {
         let mut out: Vec<Case> = shrink_vec(&c.ops).into_iter().map(|ops| Case { ops }).collect();
         for (i, op) in c.ops.iter().enumerate() {
+            if let ROp::Walk(n) = op {
+                if *n > 1 {
+                    let mut ops = c.ops.clone();
+                    ops[i] = ROp::Walk(n / 2);
+                    out.push(Case { ops });
+                }
+            }
             if let ROp::Prog { draws, zero_every, brk } = op {
                 if *draws > 1 {
                     let mut ops = c.ops.clone();
